@@ -188,7 +188,7 @@ func ruleC17Sanitise(c *Ctx) {
 			}
 		}
 	}
-	if total < 10 {
+	if total < half(10) {
 		c.unresolved("only %d query uses of caller-supplied names found (expected >= 10)", total)
 	}
 }
